@@ -122,7 +122,8 @@ def install() -> None:
 # interposed socket
 
 FATAL = {'ECONNRESET': errno.ECONNRESET, 'EPIPE': errno.EPIPE, 'ETIMEDOUT': errno.ETIMEDOUT,
-         'EHOSTUNREACH': errno.EHOSTUNREACH, 'ECONNABORTED': errno.ECONNABORTED, 'ENOBUFS': errno.ENOBUFS}
+         'EHOSTUNREACH': errno.EHOSTUNREACH, 'ECONNABORTED': errno.ECONNABORTED, 'ENOBUFS': errno.ENOBUFS,
+         'ENOTCONN': errno.ENOTCONN}
 
 
 class KStats:
@@ -226,6 +227,10 @@ class KSock(socket.socket):
             n = super().send(view, flags)
         except BlockingIOError:
             self.short += 1
+            if self.mode != 'nonblocking':
+                # the kernel buffer really is full and the proxy asked for a blocking send: the (single) worker thread
+                # would sit in this call for the socket timeout, and with it every connection it serves
+                self.world.stalls.append({'sock': self.kname, 'op': 'send', 'iter': self.world.iter, 'mode': self.mode})
             self._wouldblock()
             raise
         except OSError:
@@ -244,6 +249,8 @@ class KSock(socket.socket):
         try:
             b = super().recv(bufsize, flags)
         except BlockingIOError:
+            if self.mode != 'nonblocking':
+                self.world.stalls.append({'sock': self.kname, 'op': 'recv', 'iter': self.world.iter, 'mode': self.mode})
             self._wouldblock()
             raise
         except OSError:
@@ -257,7 +264,15 @@ class KSock(socket.socket):
         return b
 
     def shutdown(self, how: int) -> None:
-        self.n['shutdown'] += 1
+        # shutdown() on a connection the peer has reset fails with ENOTCONN on a real stack: a faultable call like the others
+        k = self.n['shutdown']
+        f = self.faults.get(('shutdown', k))
+        if f == 'EAGAIN':
+            self.faults[('shutdown', k)] = 'ENOTCONN'
+        try:
+            self._fault('shutdown')
+        except (BlockingIOError, socket.timeout):
+            raise OSError(errno.ENOTCONN, os.strerror(errno.ENOTCONN))
         self.world.activity += 1
         super().shutdown(how)
 
@@ -494,6 +509,7 @@ class World:
         self.iter = 0
         self.activity = 0
         self.calls = 0
+        self.stalls: List[Dict[str, Any]] = []      # blocking-mode socket calls that met a really full / empty kernel buffer
         self.ksocks: List[KStats] = []
         self.peers: Dict[str, Peer] = collections.OrderedDict()
         self.clients: List[Tuple[Peer, Dict[str, Any]]] = []      # not yet opened
